@@ -248,7 +248,7 @@ def check_case(case, ctx):
 
 
 def reach(counters, tier, info):
-    k = 1 if tier == "quick" else 15
+    k = 0.5 if tier == "quick" else 15
     out = []
     for name, key, need in [("snapshots compared", "snapshots_compared", 10000 * k),
                             ("algorithm runs on objects already used by another operation", "algorithm_runs_on_used_objects", 1000 * k),
